@@ -108,13 +108,22 @@ func PageSources() string {
 	return "sources.html"
 }
 
-var notPageNameRegexp = regexp.MustCompile("[^a-zA-Z_0-9-]+")
+var notPageNameRegexp = regexp.MustCompile("[^a-zA-Z0-9-]")
 
 func PageSource(source *gedcom.SourceNode) string {
 	// The pointer can contain any character (apart from "@"). It must not be
 	// possible for a pointer like "../x" to place the page outside of the
-	// output directory.
-	name := notPageNameRegexp.ReplaceAllString(source.Pointer(), "-")
+	// output directory. Each byte that is not safe is replaced with "_" and
+	// its two hex digits so that different pointers never share a page.
+	name := notPageNameRegexp.ReplaceAllStringFunc(source.Pointer(),
+		func(s string) string {
+			escaped := ""
+			for i := 0; i < len(s); i++ {
+				escaped += fmt.Sprintf("_%02x", s[i])
+			}
+
+			return escaped
+		})
 
 	return fmt.Sprintf("%s.html", name)
 }
